@@ -119,7 +119,7 @@ func CanonTyped(sb *strings.Builder, v reflect.Value) {
 	case reflect.Uint, reflect.Uint8, reflect.Uint16, reflect.Uint32, reflect.Uint64:
 		fmt.Fprintf(sb, "n:%d", v.Uint())
 	case reflect.Float32:
-		fmt.Fprintf(sb, "f:%d", math.Float32bits(float32(v.Float())))
+		fmt.Fprintf(sb, "f:%d", f32bits(v))
 	case reflect.Float64:
 		fmt.Fprintf(sb, "d:%d", math.Float64bits(v.Float()))
 	case reflect.String:
@@ -349,3 +349,12 @@ func runTarget(file bool, target string, data []byte, mode int) Result {
 
 // Targets of C01 (typed destinations are chosen per tree).
 var Targets = []string{"any", "map", "raw", "dyn", "snbt", "skip"}
+
+// f32bits returns the bits of a float32-kinded value AS STORED: reflect.Value.Float converts to float64,
+// which on amd64 turns a signalling NaN into a quiet one (0x7f810000 -> 0x7fc10000) - an artefact of the
+// observation, not of the decoder
+func f32bits(v reflect.Value) uint32 {
+	nv := reflect.New(v.Type()).Elem()
+	nv.Set(v)
+	return *(*uint32)(nv.Addr().UnsafePointer())
+}
